@@ -241,8 +241,37 @@ def review(ob, prog, roots, table, fshort, stop=(), include_overflow=False, scop
                     autos.setdefault((nk(d), s.kind, s.what, why), []).append(s)
                     continue
             groups.setdefault((nk(d), s.kind, s.what), []).append(s)
+    # `x.expect("msg")` <-> `let Some(..) = x else { panic!("msg") }` <-> `match x { None => panic!(..) }`: the same site, spelled as an
+    # unwrap or as an explicit panic. Reviewed capacity of a function is therefore pooled over the two kinds: an explicit panic may use
+    # the unused capacity of a reviewed unwrap entry of the same function (and vice versa).
+    pooled = {}
+    for k, ss in groups.items():
+        if k[1] in ("panic", "unwrap"):
+            rev0 = table.get(k)
+            spare = (rev0[0] if rev0 and (len(rev0) < 3 or rev0[2] != "finding") else 0) - len(ss)
+            pooled.setdefault(k[0], {})[k] = spare
+    for (fnk, kind, what), v in list(table.items()):
+        if kind in ("panic", "unwrap") and (fnk, kind, what) not in groups and (len(v) < 3 or v[2] != "finding"):
+            pooled.setdefault(fnk, {})[(fnk, kind, what)] = v[0]
+    borrowed = {}
+    for fnk, ent in pooled.items():
+        need = [(k, -sp) for k, sp in ent.items() if sp < 0]
+        have = [[k, sp] for k, sp in ent.items() if sp > 0]
+        for k, n in need:
+            for h in have:
+                if n <= 0:
+                    break
+                if h[0][1] != k[1] and h[1] > 0:
+                    take = min(n, h[1])
+                    h[1] -= take
+                    n -= take
+                    borrowed[k] = borrowed.get(k, 0) + take
+                    borrowed.setdefault(("why", k), table[h[0]][1])
     for k, ss in sorted(groups.items()):
         rev = table.get(k)
+        if k in borrowed:
+            base = rev[0] if rev else 0
+            rev = (base + borrowed[k], (rev[1] + " / " if rev else "") + "respelled unwrap/panic of: " + borrowed[("why", k)])
         status = rev[2] if rev and len(rev) > 2 else "ok"
         if rev and status == "finding":
             for s in ss:
